@@ -158,7 +158,13 @@ func assignsIn(u *core.Unit, match func(lhs ast.Expr) bool) []Assign {
 		}
 		if h := u.Prog.UnitOf(cl.Callee); h != nil && h != u.Root() && assignDepth < 3 {
 			assignDepth++
+			subst := core.HelperSubst(cl)
 			for _, a := range assignsIn(h, match) {
+				if id, isI := ast.Unparen(a.Rhs).(*ast.Ident); isI && a.Rhs != nil {
+					if e, mapped := subst[h.Info().Uses[id]]; mapped {
+						a.Rhs = e // the helper forwards its parameter: the value assigned is the caller's argument
+					}
+				}
 				orig := a.Loc
 				a.Loc = cl.Loc
 				a.Loc.Orig = &core.OrigLoc{G: h.Graph(), L: orig}
@@ -445,4 +451,53 @@ func ltNorm(be *ast.BinaryExpr) (lhs, rhs ast.Expr, pol int) {
 		return be.Y, be.X, -1
 	}
 	return nil, nil, 0
+}
+
+// fieldInits: initialisations of struct field "Type.field" by a keyed composite
+// literal (`&T{field: v}`) in the unit's own body — the other way of writing
+// `x := &T{}; x.field = v`. Loc is the literal's place in the CFG.
+func fieldInits(u *core.Unit, field string) []Assign {
+	var out []Assign
+	info := u.Info()
+	g := u.Graph()
+	var stack []ast.Node
+	ast.Inspect(u.Body, func(n ast.Node) bool {
+		if n == nil {
+			stack = stack[:len(stack)-1]
+			return true
+		}
+		if _, isLit := n.(*ast.FuncLit); isLit {
+			return false
+		}
+		stack = append(stack, n)
+		cl, ok := n.(*ast.CompositeLit)
+		if !ok {
+			return true
+		}
+		tv, has := info.Types[cl]
+		if !has {
+			return true
+		}
+		tn := core.TypeName(tv.Type)
+		for _, el := range cl.Elts {
+			kv, isKV := el.(*ast.KeyValueExpr)
+			if !isKV {
+				continue
+			}
+			id, isI := kv.Key.(*ast.Ident)
+			if !isI || tn+"."+id.Name != field {
+				continue
+			}
+			var st ast.Stmt
+			for i := len(stack) - 1; i >= 0 && st == nil; i-- {
+				st, _ = stack[i].(ast.Stmt)
+			}
+			if st == nil {
+				continue
+			}
+			out = append(out, Assign{Stmt: st, Lhs: kv.Key, Rhs: kv.Value, Tok: token.DEFINE, Loc: g.LocOf(cl)})
+		}
+		return true
+	})
+	return out
 }
